@@ -494,6 +494,15 @@ def gen_conn(rng, big=False):
     return c
 
 
+def slow_consumer_scenarios():
+    """thorough tier: the writer sends 200 KB and closes; the reader takes 7 s before it reads on. The stream still arrives whole,
+    then end-of-stream - nothing may give up on a closed-but-unread stream after a few seconds"""
+    mk = lambda closer: {"up": [200000] if closer == "client" else [], "down": [200000] if closer == "upstream" else [], "rbuf_up": [4096], "rbuf_down": [4096],
+                         "closer": closer, "mode": "half", "seed": 4242, "pause_ms": 7000}
+    return [{"id": "slow-consumer-1node", "nodes": 1, "entry": "dialer", "exit": "listener", "conns": [mk("client")]},
+            {"id": "slow-consumer-2node", "nodes": 2, "entry": "dialer", "exit": "listener", "conns": [mk("client"), mk("upstream")]}]
+
+
 def gen_scenarios(rng, tier):
     combos = [(1, "dialer", "listener"), (2, "dialer", "listener"), (1, "forwarder", "agent"), (2, "dialer", "clientfwd")]
     if tier != "quick":
@@ -515,6 +524,8 @@ def gen_scenarios(rng, tier):
                     if not c["down"]:
                         c["down"] = [5, 0, 1000]
         scs.append({"id": "t%d-%dn-%s-%s" % (i, n, e, x), "nodes": n, "entry": e, "exit": x, "conns": conns})
+    if tier != "quick":
+        scs += slow_consumer_scenarios()
     return scs
 
 
